@@ -110,7 +110,8 @@ func (a Bool) M__eq__(other Object) (Object, error) {
 		// let the complex number do the comparison
 		return NotImplemented, nil
 	}
-	return False, nil
+	// let the other operand (an arbitrary-precision int, an object with its own __eq__) decide
+	return NotImplemented, nil
 }
 
 func (a Bool) M__ne__(other Object) (Object, error) {
@@ -120,7 +121,7 @@ func (a Bool) M__ne__(other Object) (Object, error) {
 	if _, isComplex := other.(Complex); isComplex {
 		return NotImplemented, nil
 	}
-	return True, nil
+	return NotImplemented, nil
 }
 
 func notEq(eq Object, err error) (Object, error) {
